@@ -149,6 +149,12 @@ theorem match_exact_first {key : S} {k : Cls} (hk : cls key = some k) (cells : L
       MATCH key (cells.map fun x => [x]) (.num (.int 0)) = .ok (.err .na)) := by
   apply Lemmas.C15.match_exact_first <;> assumption
 
+/-- **the sortedness test passes on ascending classified data** (whatever its length): `sorted`
+    finds one non-descending run and returns the very same elements in the same places. -/
+theorem sortedNe_ascending (cells : List S) (xs : List Cls) (hc : cells.map cls = xs.map some)
+    (hasc : Spec.C15.ascending xs = true) : sortedNe false cells = .ok (some false) := by
+  apply Lemmas.C15.sortedNe_ascending <;> assumption
+
 /-- **refinement, approximate MATCH**: on an ascending column of classified cells MATCH(key, column, 1)
     (and MATCH(key, column)) is the last position whose value does not exceed the key, #N/A if there
     is none. -/
@@ -292,6 +298,17 @@ example : MATCH (.num (.int 20)) [[.num (.int 10)], [.num (.int 20)], [.num (.in
 -- match_type -1 as coded (outside the statement): first equal, else the last value still ≥ the key
 example : MATCH (.num (.int 25)) [[.num (.int 40)], [.num (.int 30)], [.num (.int 20)]] (.num (.int (-1)))
     = .ok (.num (.int 2)) := by decide
+-- outside the statement, as Python performs it: `sorted` compares every element, so an error cell
+-- behind a descent raises (the `x < error` comparison fails on the missing `_sort_key`) …
+example : MATCH (.num (.int 366)) [[.num (.int 6)], [.blank], [.err .num]] (.num (.int 1))
+    = .crash .attributeError := by decide
+-- … and list `!=` compares with `==`, under which a blank equals FALSE: the reversed strictly
+-- descending run (blank, "1e2", FALSE) counts as equal to the data and the scan returns 3
+example : MATCH (.bool false) [[.bool false], [.text "1e2".toList], [.blank]] (.num (.int 1))
+    = .ok (.num (.int 3)) := by decide
+-- unsorted numbers: one binary insertion, the lists differ, #N/A
+example : MATCH (.num (.int 2)) [[.num (.int 3)], [.num (.int 1)], [.num (.int 2)]] (.num (.int 1))
+    = .ok (.err .na) := by decide
 -- a row vector is an AssertionError of the code, an empty array an IndexError (outside the statement)
 example : MATCH (.num (.int 2)) [[.num (.int 1), .num (.int 2)]] (.num (.int 0)) = .crash .assertion := by decide
 -- D1501: CHOOSE with an index between 0 and 1
